@@ -85,13 +85,24 @@ def _polygon_iteration(ctx, fi):
                 ivar, pvar = tgt.elts[0].id, tgt.elts[1].id
             elif isinstance(tgt, ast.Name):
                 pvar = tgt.id
-            first = node.body[0] if node.body else None
-            filt = (isinstance(first, ast.If) and pvar is not None and is_none_test(first.test, pvar)
-                    and len(first.body) == 1 and isinstance(first.body[0], ast.Continue) and not first.orelse)
-            other_skips = [n for n in ast.walk(node) if isinstance(n, (ast.Continue, ast.Break)) and not (filt and n is first.body[0])]
-            return dict(kind='for', node=node, index_var=ivar, poly_var=pvar, iter_ok=ok and start_ok, filter_ok=filt and not other_skips,
+            # the filter of a loop is what holds on the path to its effects (the calls on the writer): exactly
+            # "this polygon is not None", whichever way it is spelt (guard + continue, or an enclosing if)
+            from .common import positive_conditions as _pc
+            effects = [c for c in ast.walk(node) if isinstance(c, ast.Call) and isinstance(c.func, ast.Attribute) and c.func.attr in ('record', 'shape', 'append', 'add')]
+            want = [(f"{pvar} is None", False)] if pvar is not None else None
+            within = []
+            for c in effects:
+                gs = []
+                for t, pol in _pc(fi, c):
+                    if isinstance(t, ast.BoolOp) or not any(x is t or x is getattr(t, 'left', None) for x in ast.walk(node)):
+                        continue
+                    gs.append((norm_text(t), pol))
+                within.append(gs)
+            filt = bool(effects) and want is not None and all(gs == want for gs in within)
+            breaks = [n for n in ast.walk(node) if isinstance(n, (ast.Break, ast.Return))]
+            return dict(kind='for', node=node, index_var=ivar, poly_var=pvar, iter_ok=ok and start_ok, filter_ok=filt and not breaks,
                         enumerated=enumerated, elt=None, iter_text=norm_text(node.iter),
-                        filter_text=[norm_text(first.test)] if isinstance(first, ast.If) else [])
+                        filter_text=sorted({str(g) for gs in within for g in gs}))
     return None
 
 
@@ -165,8 +176,9 @@ def run(ctx: Context) -> None:
             loop = it['node']
             recs = [c for c in ast.walk(loop) if isinstance(c, ast.Call) and isinstance(c.func, ast.Attribute) and c.func.attr == 'record']
             shps = [c for c in ast.walk(loop) if isinstance(c, ast.Call) and isinstance(c.func, ast.Attribute) and c.func.attr == 'shape']
+            from .common import guards as _guards
             ok_pair = (len(recs) == 1 and len(shps) == 1 and flow.canon(recs[0].func.value) == flow.canon(shps[0].func.value)
-                       and not enclosing_ifs(fi, recs[0])[len(enclosing_ifs(fi, loop)):] and not enclosing_ifs(fi, shps[0])[len(enclosing_ifs(fi, loop)):])
+                       and _guards(fi, recs[0]) == _guards(fi, shps[0]) and it['filter_ok'])
             ctx.check('R15.2', ok_pair, "each polygon produces exactly one record and one shape on the same writer, unconditionally", fi, loop,
                       construct=f"per polygon: {len(recs)} record(), {len(shps)} shape()")
             if recs:
@@ -206,7 +218,7 @@ def run(ctx: Context) -> None:
             rets = fi.returns()
             ok = elt_ok and rets and isinstance(flow.resolve(rets[0].value), ast.Call) \
                 and (callee(ctx, fi, flow.resolve(rets[0].value)) or '').endswith('MultiPolygon') \
-                and flow.resolve(rets[0].value).args and flow.resolve(rets[0].value).args[0] is it['node']
+                and flow.resolve(rets[0].value).args and flow.resolve(flow.resolve(rets[0].value).args[0]) is it['node']
             ctx.check('R15.4', bool(ok), "_to_multipolygon is the MultiPolygon of the cells, in order", fi, rets[0] if rets else fi.node)
 
     # writers
@@ -222,7 +234,9 @@ def run(ctx: Context) -> None:
         ok_arg = isinstance(arg, ast.Call) and callee(ctx, fi, arg) == f"{GEO}._to_multipolygon" and len(arg.args) == 1 \
             and flow.canon(arg.args[0]) == ('param', fi.params[0])
         opens = [c for c in calls_in(fi) if dotted(c.func) == 'open']
-        ok_open = len(opens) == 1 and flow.canon(opens[0].args[0]) == ('param', fi.params[1]) and const_value(opens[0].args[1], None) == mode
+        omode = arg_or_kw(opens[0], 1, 'mode') if len(opens) == 1 else None
+        ofile = arg_or_kw(opens[0], 0, 'file') if len(opens) == 1 else None
+        ok_open = len(opens) == 1 and ofile is not None and flow.canon(ofile) == ('param', fi.params[1]) and omode is not None and const_value(omode, None) == mode
         wr = [c for c in method_calls(fi, 'write')]
         ok_wr = len(wr) == 1 and wr[0].args and flow.resolve(wr[0].args[0]) is s
         ctx.check('R15.4', ok_arg and ok_open and ok_wr, f"the multipolygon of this dataset is serialised and written to the caller's path ({mode!r})", fi, s)
@@ -245,10 +259,12 @@ def run(ctx: Context) -> None:
     dumps = [c for c in calls_in(wg) if callee(ctx, wg, c) in ('json.dump', 'geojson.dump')]
     ok = False
     if len(dumps) == 1:
-        a = flow.resolve(dumps[0].args[0])
-        ok = isinstance(a, ast.Call) and callee(ctx, wg, a) == f"{GEO}.to_geojson" and flow.canon(a.args[0]) == ('param', wg.params[0])
+        a0 = arg_or_kw(dumps[0], 0, 'obj')
+        a = flow.resolve(a0) if a0 is not None else None
+        ok = isinstance(a, ast.Call) and callee(ctx, wg, a) == f"{GEO}.to_geojson" and bool(a.args) and flow.canon(a.args[0]) == ('param', wg.params[0])
         opens = [c for c in calls_in(wg) if dotted(c.func) == 'open']
-        ok = ok and len(opens) == 1 and flow.canon(opens[0].args[0]) == ('param', wg.params[1])
+        ofile = arg_or_kw(opens[0], 0, 'file') if len(opens) == 1 else None
+        ok = ok and ofile is not None and flow.canon(ofile) == ('param', wg.params[1])
     ctx.check('R15.4', ok, "write_geojson dumps to_geojson(dataset) to the caller's path", wg, dumps[0] if dumps else wg.node)
     from . import c20
     from .common import share_obligations
